@@ -12,7 +12,18 @@ contract(
     params={},
     assumed=True, verify=False,
     bounded=("bounded/crash_sweep.py", 10000, 10000),
-    props=["C15"],
+    props=["C15"], only_props=True,  # crash points are C15's quantifier only
     doc="[bounded only] stage+transfer with state, index save into two caches, store-to-store transfer, upload staging: every "
         "os-level mutation is a crash point; audit, re-run, audit",
+)
+
+contract(
+    "dvc_data.index.save:save",
+    params={},
+    assumed=True, verify=False,
+    bounded=("bounded/index_save.py", 150, 3000),
+    props=["C01", "C13"],
+    doc="[bounded only] index pipeline md5() -> save() over histories of workspace edits (re-validation of an index that carries recorded "
+        "hashes, or build+update+md5): after every save each object of each store is named by the md5 of its bytes, local objects are "
+        "read-only, and a re-validated entry carries the hash of the file's current bytes",
 )
